@@ -449,6 +449,7 @@ def units(prop, tier):
 
 
 # ================================================================ status
+# STATUS ON THE REPAIRED TREE (fix ba7ef958: `assert 0 <= int_mod_q < self._order`): the finding below verifies now.
 # FINDING (natively confirmed, obligation left registered: C04.Signature.DSS.DeterministicDsaSigScheme._int2octets.raises_only.AssertionError)
 #   DeterministicDsaSigScheme._int2octets(0) raises AssertionError (`assert 0 < int_mod_q < self._order`); RFC 6979 2.3.3 / 2.3.4
 #   define int2octets for every 0 <= x < q and bits2octets yields z2 = 0 when bits2int(H(m)) is 0 or q.  Reached from
